@@ -92,7 +92,11 @@ def run(ctx):
         try:
             value, scores, paths = al.needleman_wunsch(a1, a2, **kw)
             okw = {} if order is None else {"order": order}
-            path, g1, g2 = al.best_alignment(paths, a1, a2, gap="-", **okw)
+            GAP = ("-", "-", "-", "--", "<gap>", ("gap",), None, 0)[res.evaluations % 8]     # any object may mark a gap
+            path, g1, g2 = al.best_alignment(paths, a1, a2, gap=GAP, **okw)
+            isgap = (lambda x: x is None) if GAP is None else (lambda x: type(x) is type(GAP) and x == GAP)
+            info["gap_marker"] = repr(GAP)
+            res.hit("gap_marker_%s" % type(GAP).__name__)
         except BaseException as ex:
             if isinstance(ex, (KeyboardInterrupt, SystemExit)):
                 raise
@@ -112,14 +116,14 @@ def run(ctx):
         if len(g1) != len(g2):
             res.violations.append(dict(info, clause="the two gapped sequences have equal length", g1=g1, g2=g2))
             continue
-        if any(x == "-" and y == "-" for x, y in zip(g1, g2)):
+        if any(isgap(x) and isgap(y) for x, y in zip(g1, g2)):
             res.violations.append(dict(info, clause="a gap is never aligned with a gap", g1=g1, g2=g2))
-        if [x for x in g1 if x != "-"] != list(s1) or [y for y in g2 if y != "-"] != list(s2):
+        if [x for x in g1 if not isgap(x)] != list(s1) or [y for y in g2 if not isgap(y)] != list(s2):
             res.violations.append(dict(info, clause="removing the gaps gives back the inputs", g1=g1, g2=g2))
             continue
         score = 0.0
         for x, y in zip(g1, g2):
-            score -= cfg["gap"] if (x == "-" or y == "-") else internal_cost(cfg, x, y)
+            score -= cfg["gap"] if (isgap(x) or isgap(y)) else internal_cost(cfg, x, y)
         if score != float(value):
             res.violations.append(dict(info, clause="the reconstructed alignment scores exactly the returned value",
                                        g1=g1, g2=g2, alignment_score=score, value=float(value)))
@@ -129,10 +133,10 @@ def run(ctx):
         else:
             m1 = ["-" if c[0] is None else ALPHA[c[0]] for c in mo["alignment"]]
             m2 = ["-" if c[1] is None else ALPHA[c[1]] for c in mo["alignment"]]
-            if m1 != list(g1) or m2 != list(g2):
+            if m1 != ["-" if isgap(x) else x for x in g1] or m2 != ["-" if isgap(y) else y for y in g2]:
                 res.mismatches.append(dict(info, what="alignment differs from the Lean traceback", impl=[g1, g2],
                                            model=[m1, m2]))
-        res.sample(dict(info, value=float(value), alignment=["".join(g1), "".join(g2)]), limit=4)
+        res.sample(dict(info, value=float(value), alignment=[repr(list(g1)), repr(list(g2))]), limit=4)
     return res
 
 
